@@ -210,7 +210,9 @@ def run_job(job: dict) -> dict:
 # ------------------------------------------------------------------------ driver side
 def configs(tier: str, seed: int) -> list[dict]:
     if tier == "quick":
-        hs, layouts, scheds = ["0", "1", "4242"], [0, 1], 3
+        # (one schedule configuration is enough while the shipped worklists are ordered:
+        # the scheduler then finds no choice point; the slots go to a fourth hash seed)
+        hs, layouts, scheds = ["0", "1", "4242", "7"], [0, 1], 1
     else:
         hs, layouts, scheds = ["0", "1", "7", "1234", "99", "31337"], [0, 1, 2, 3], 8
     out = []
